@@ -395,6 +395,8 @@ func cloneVia(c *core.Ctx, kind string, st []byte) hash.Hash {
 	return h
 }
 
+var bulk []byte
+
 func runSweep(c *core.Ctx, s *Scenario) {
 	stream := data(s.DataSeed, s.Pre)
 	base := newHash(s.Kind)
@@ -442,6 +444,67 @@ func runSweep(c *core.Ctx, s *Scenario) {
 				return
 			}
 		}
+	}
+	// second generation: a state UnmarshalBinary accepted is a hash like any
+	// other; after more writes its own checkpoint restores transparently. A
+	// long write (2^24 bytes and a bit) lets a byte set to 0xff in a counter
+	// field carry into the next word.
+	for _, v := range []int{0xff, 0x7f, 0} {
+		nb := append([]byte(nil), b...)
+		if nb[s.SweepPos] == byte(v) {
+			continue
+		}
+		nb[s.SweepPos] = byte(v)
+		h2 := newHash(s.Kind)
+		ctx := func() string {
+			return fmt.Sprintf("kind %s, state after %d bytes with byte %d of %d set to %d, then a long write, MarshalBinary and UnmarshalBinary", s.Kind, s.Pre, s.SweepPos, len(b), v)
+		}
+		var uerr error
+		if !guard(c, "UnmarshalBinary", ctx, func() { uerr = h2.(encoding.BinaryUnmarshaler).UnmarshalBinary(nb) }) {
+			return
+		}
+		if uerr != nil {
+			continue
+		}
+		n := 600
+		if v == 0xff {
+			n = 1<<24 + 600
+		}
+		if bulk == nil {
+			bulk = data(11, 1<<24+600)
+		}
+		var m []byte
+		var merr error
+		if !guard(c, "Write+MarshalBinary", ctx, func() {
+			h2.Write(bulk[:n])
+			m, merr = h2.(encoding.BinaryMarshaler).MarshalBinary()
+		}) {
+			return
+		}
+		if merr != nil {
+			continue // e.g. a squeezing Keccak state: nothing to restore
+		}
+		h3 := newHash(s.Kind)
+		if !guard(c, "UnmarshalBinary of the second checkpoint", ctx, func() { uerr = h3.(encoding.BinaryUnmarshaler).UnmarshalBinary(m) }) {
+			return
+		}
+		if uerr != nil {
+			c.Violate(Prop, "valid-checkpoint-rejected", "%s: UnmarshalBinary rejected a checkpoint that MarshalBinary had just produced from a live hash: %v", ctx(), uerr)
+			return
+		}
+		var s2, s3 []byte
+		if !guard(c, "Write+Sum", ctx, func() {
+			h2.Write(bulk[:77])
+			h3.Write(bulk[:77])
+			s2, s3 = h2.Sum(nil), h3.Sum(nil)
+		}) {
+			return
+		}
+		if !bytes.Equal(s2, s3) {
+			c.Violate(Prop, "restore-not-transparent", "%s: the restored hash gives %x after 77 more bytes, the hash it was taken from gives %x", ctx(), s3, s2)
+			return
+		}
+		rt.Probe("second-generation-checkpoint-transparent")
 	}
 	rt.Event("sweep %s pre=%d pos=%d accepted=%d", s.Kind, s.Pre, s.SweepPos, accepted)
 	c.State("%s pos=%d accepted=%d", s.Kind, s.SweepPos, accepted)
